@@ -439,6 +439,14 @@ Section C01_pass.
     end.
   Proof. exact (script_pass_in_order num add sub mul div pow neg absf ltb leb eqb zero fun1 fun2 flagged lit p1 y k e p2 catch t v v1 l1). Qed.
 
+  (* the pass IS the left fold of "run the next statement on the store reached so far" over the statements in symbol
+     order, starting from the store before the pass; the first exception freezes the state *)
+  Theorem C01_pass_is_gauss_seidel_fold (p : sprogram) catch t v :
+    eval_pass catch (program_map string num lit p) t v =
+    fold_left (pass_step num add sub mul div pow neg absf ltb leb eqb zero fun1 fun2 flagged catch t)
+              (program_map string num lit p) ((v, None), []).
+  Proof. exact (script_pass_is_fold num add sub mul div pow neg absf ltb leb eqb zero fun1 fun2 flagged lit p catch t v). Qed.
+
   (* one statement: the value of its right-hand side goes into its left-hand cell; nothing else happens *)
   Theorem C01_statement_effect y k (e : sexpr) catch t v x le q :
     eval_expr catch t v (expr_map string num lit e) = (EVal x, le) ->
@@ -459,6 +467,7 @@ Print Assumptions C01_pass_writes_only_lhs_cells.
 Print Assumptions C01_pass_accesses_are_the_written_terms.
 Print Assumptions C01_feasible_period_reads_at_written_offsets.
 Print Assumptions C01_pass_gauss_seidel.
+Print Assumptions C01_pass_is_gauss_seidel_fold.
 Print Assumptions C01_statement_effect.
 Print Assumptions C01_value_depends_only_on_written_terms.
 
